@@ -212,6 +212,37 @@ func Slice(v ssa.Value, throughCalls bool, visit func(ssa.Value) bool) bool {
 			return walk(x.X)
 		case *ssa.Lookup:
 			return walk(x.X)
+		case *ssa.Alloc:
+			// a local aggregate (e.g. the varargs array of a call): follow what is stored into its elements/fields
+			if refs := x.Referrers(); refs != nil {
+				for _, ref := range *refs {
+					var addr ssa.Value
+					switch r := ref.(type) {
+					case *ssa.IndexAddr:
+						if r.X == v {
+							addr = r
+						}
+					case *ssa.FieldAddr:
+						if r.X == v {
+							addr = r
+						}
+					case *ssa.Store:
+						if r.Addr == v && walk(r.Val) {
+							return true
+						}
+					}
+					if addr == nil || addr.Referrers() == nil {
+						continue
+					}
+					for _, rr := range *addr.Referrers() {
+						if st, ok := rr.(*ssa.Store); ok && st.Addr == addr {
+							if walk(st.Val) {
+								return true
+							}
+						}
+					}
+				}
+			}
 		case *ssa.Call:
 			if throughCalls {
 				if x.Call.IsInvoke() && walk(x.Call.Value) {
